@@ -535,7 +535,20 @@ class _FuncAnalysis:
 
     def run(self):
         eng = self.eng
+        want = None
+        if not isinstance(self.fi.node, ast.Lambda) and getattr(self.fi.node, "returns", None) is not None:
+            want = eng.parse_ann(self.fi.node.returns, self.fi.module)
+            if want is not None and want[0] != "node":
+                want = None
         for n in own_nodes(self.fi.node):
+            if want is not None and isinstance(n, ast.Return) and n.value is not None:
+                t = self.infer(n.value)
+                if t is not None and t[0] == "node":
+                    t = self.narrowed(n.value, t)
+                    eng.reads += 1
+                    extra = sorted(t[1] - want[1])
+                    if extra:
+                        eng.problems.append(("ret", self.fi, n, ast.unparse(self.fi.node.returns), extra))
             if isinstance(n, ast.Attribute) and isinstance(n.ctx, ast.Load):
                 t = self.infer(n.value)
                 if t is None or t[0] != "node":
